@@ -1,7 +1,7 @@
 """HTTP surface of the real server (C17, C18, C11-A5, C12-R2): AdminAPI.tla's routing table (method x endpoint x credential, enumerated
 completely by TLC) sent as real requests; seeded update / optimistic-concurrency sequences with every If-Match / If-None-Match form;
 a crash at every named point of the definition-file rewrite; WHIP sessions.  Trace_Http judges."""
-import json, os, random
+import base64, json, os, random
 import common as C
 
 S1, S2, S3, S4, S5, S6 = "SENTroot7q", "SENTalice3x", "SENTbobpw9k", "SENTgadm4w", "SENToper5v", "SENTwild8m"
@@ -50,7 +50,8 @@ BODY = {"group": ('{"displayName":"changed"}', "application/json"), "user": ('{"
 CRED = {"none": ({}, "", ""), "wrongpw": ({}, "root", "nope"), "user": ({}, "bob", S3), "op": ({}, "oper", S5), "otheradmin": ({}, "hadmin", "SENThadm2z"),
         "gadmin": ({}, "gadmin", S4), "root": ({}, "root", S1), "tokout": ({"Authorization": "Bearer tokh"}, "", ""),
         "tokin": ({"Authorization": "Bearer toking"}, "", ""), "tokroot": ({"Authorization": "Bearer tokroot"}, "", ""), "selfpw": ({}, "whoever", S2)}
-X0 = {"class": "serve", "addr": "any", "g": "", "editor": "", "form": "none", "hdr": "", "expected": 0, "granted": 0}
+X0 = {"class": "serve", "addr": "any", "g": "", "editor": "", "form": "none", "hdr": "", "expected": 0, "granted": 0, "obj": "desc"}
+OBJ = {"group": "desc", "user": "alice", "password": "alice", "keys": "keys", "wildcard": "wild", "wildpassword": "wild"}
 
 
 def request(name, m, e, c, extra_headers=None, body=None):
@@ -95,57 +96,76 @@ def table_behaviours(rows):
 
 
 FORMS = ["exact", "exact", "exact", "list-containing", "list-not-containing", "weak", "star", "malformed", "empty-quoted"]
-OBJ = {"group": "group", "user": "user", "newuser": None, "password": "password", "keys": "keys", "wildcard": "wildcard"}
+PATH["newuser"] = "/galene-api/v0/.groups/g/.users/newuser"
+PATH["newpassword"] = "/galene-api/v0/.groups/g/.users/newuser/.password"
+ADDR["newuser"] = "g:user:newuser"
+ADDR["newpassword"] = "g:pw:newuser"
+OBJ["newuser"] = "newuser"
+OBJ["newpassword"] = "newuser"
+BODY["newuser"] = ('{"permissions":"present"}', "application/json")
+BODY["newpassword"] = ('"np"', "application/json")
+
+
+def write_body(r, e, k):
+    if e == "group":
+        return json.dumps({"displayName": "v%d" % k, "description": "x" * (k % 7)})
+    if e in ("user", "newuser", "wildcard"):
+        return json.dumps({"permissions": r.choice(["present", "message", "observe", "op"])})
+    if e in ("password", "newpassword", "wildpassword"):
+        return json.dumps("pw-%d-%s" % (k, "y" * (k % 5)))
+    if e == "keys":
+        return json.dumps({"keys": [{"kty": "oct", "alg": "HS256", "k": base64.urlsafe_b64encode(("key-%028d" % k).encode()).decode().rstrip("="), "kid": "k%d" % k}]})
+    return None
 
 
 def sequences(seed, n):
-    """optimistic-concurrency sequences: GETs capture tags, conditional PUT/DELETEs use them in every header form"""
+    """optimistic concurrency: unconditional and conditional GETs capture tags; conditional PUT / POST / DELETE use a tag that some
+    earlier response served (current or stale) in every header form; racing writers all carry the same tag"""
     r = random.Random(seed)
     behs, meta = [], {}
+    targets = ["group", "user", "user", "newuser", "password", "newpassword", "keys", "wildcard", "wildpassword", "group"]
     for b in range(n):
         st, gets, k = [], [], 0
-        for i in range(28):
+        for i in range(30):
             k += 1
-            e = r.choice(["group", "user", "user", "password", "keys", "wildcard", "group"])
-            kind = r.choice(["get", "get", "get", "put", "put", "put", "delete", "inm"])
             name = "b%d-%d" % (b, k)
+            kind = r.choice(["get", "get", "get", "put", "put", "put", "put", "delete", "inm", "race"])
             if kind == "get" or not gets:
-                ge = r.choice(["group", "user"])
+                ge = r.choice(["group", "user", "newuser", "wildcard"])
                 hdrs = {}
-                x = dict(X0, **{"g": "g", "editor": name, "addr": "g:nothing"})
+                x = dict(X0, g="g", addr="g:nothing", obj=OBJ[ge])
                 if gets and r.random() < 0.5:
-                    f = r.choice(FORMS)
-                    src = r.choice(gets)
+                    f, src = r.choice(FORMS), r.choice(gets)
                     hdrs["If-None-Match"] = header_value(f, src)
-                    x.update({"form": f, "hdr": "If-None-Match", "editor": src})
-                    # this GET also captures a tag; it is held under the GET's own name when served with 200
-                st.append(request(name, "GET", ge, "root", hdrs))
+                    x.update(form=f, hdr="If-None-Match", editor=src)
+                st.append(request(name, r.choice(["GET", "GET", "HEAD"]), ge, "root", hdrs))
                 meta[name] = x
-                if not hdrs:
-                    gets.append(name)
+                gets.append(name)
                 continue
-            f = r.choice(FORMS)
-            src = r.choice(gets)
+            f, src = r.choice(FORMS), r.choice(gets[-4:] if r.random() < 0.7 else gets)
+            e = r.choice(targets)
             if kind == "inm":
-                # creation that must not overwrite: If-None-Match: *
-                ue = r.choice(["user", "group"])
-                st.append(request(name, "PUT", ue, "root", {"If-None-Match": "*"}))
-                meta[name] = dict(X0, **{"g": "g", "editor": src, "form": "star", "hdr": "If-None-Match", "addr": ADDR[ue]})
+                e = r.choice(["newuser", "user", "group", "wildcard"])
+                st.append(request(name, "PUT", e, "root", {"If-None-Match": "*"}, write_body(r, e, k)))
+                meta[name] = dict(X0, g="g", editor=src, form="star", hdr="If-None-Match", addr=ADDR[e], obj=OBJ[e])
                 continue
-            m = "PUT" if kind == "put" else "DELETE"
-            if e == "group" and m == "DELETE" and r.random() < 0.7:
-                m = "PUT"
-            if e in ("password", "keys") and m == "DELETE":
-                m = "PUT"
-            body = None
-            if e == "group":
-                body = json.dumps({"displayName": "v%d" % k, "description": "x" * (k % 7)})
-            elif e == "user":
-                body = json.dumps({"permissions": r.choice(["present", "message", "observe"])})
-            elif e == "password":
-                body = json.dumps("pw-%d" % k)
+            if kind == "race":
+                e = r.choice(["group", "user", "password", "keys", "wildcard"])
+                reqs = [request("%s-%d" % (name, j), "PUT", e, "root", {"If-Match": "$etag:" + src}, write_body(r, e, 100 * k + j)) for j in range(r.choice([2, 3, 6]))]
+                st.append(["httprace", name, reqs])
+                meta[name] = dict(X0, g="g", editor=src, form="exact", hdr="If-Match", addr="any", obj=OBJ[e])
+                continue
+            m = "PUT"
+            if kind == "delete" and (e not in ("group",) or r.random() < 0.25):
+                m = "DELETE"
+            if e.endswith("password") and r.random() < 0.3:
+                m = "POST"
+            body = write_body(r, e, k) if m == "PUT" else None
             st.append(request(name, m, e, "root", {"If-Match": header_value(f, src)}, body))
-            meta[name] = dict(X0, **{"g": "g", "editor": src, "form": f, "hdr": "If-Match", "addr": ADDR[e]})
+            addr = ADDR[e]
+            if e == "keys" and m == "DELETE":
+                addr = "g:keys"
+            meta[name] = dict(X0, g="g", editor=src, form=f, hdr="If-Match", addr=addr, obj=OBJ[e])
         behs.append({"name": "update-sequence-%d" % b, "fixture": fixture(), "steps": st})
     return behs, meta
 
@@ -182,6 +202,44 @@ def whips():
     return [{"name": "whip-sessions", "fixture": fixture(), "steps": st}], meta
 
 
+def fuzz(seed, n):
+    """C12-R2: requests nobody would send on purpose -- every route family, odd methods, malformed JSON, huge or truncated bodies, broken
+    percent-encoding, traversal attempts, precondition headers of every shape; each must get an HTTP response and leave the process alive"""
+    r = random.Random(seed ^ 0x5eed)
+    roots = ["/galene-api/v0/.groups/g", "/galene-api/v0/.groups/g/.users/alice", "/galene-api/v0/.groups/g/.users/alice/.password",
+             "/galene-api/v0/.groups/g/.keys", "/galene-api/v0/.groups/g/.tokens/", "/galene-api/v0/.groups/g/.tokens/tokg1",
+             "/galene-api/v0/.groups/", "/galene-api/v0/.stats", "/galene-api/v0/.groups/g/.wildcard-user", "/galene-api/v0/.groups/g/.empty-user/.password",
+             "/group/g/", "/group/g", "/group/g/.whip", "/group/g/.whip/abcdef", "/group/g/.status", "/group/g/.status.json", "/public-groups.json",
+             "/recordings/g/", "/recordings/g/x.webm", "/ws", "/", "/galene.html", "/group/", "/galene-api/", "/galene-api/v0/", "/stats.json"]
+    tails = ["", "/", "/..", "/../..", "/%2e%2e/%2e%2e/etc/passwd", "/%zz", "%00", "/.users/", "/.users//", "//", "/" + "a" * 3000, "/.tokens/x/y", "?q=1&q=2", "/\\..\\x",
+             "/.password", "/.users/%c3%28", "/.users/..%2f..%2fx"]
+    bodies = ["", "{", "null", "[]", "\"x\"", "{\"permissions\":7}", "{\"users\":{\"a\":{}}}", "{\"permissions\":[\"admin\",null]}", "{\"expires\":\"yesterday\"}",
+              "{\"keys\":[{\"kty\":\"oct\"}]}", "{\"keys\":[7]}", "{\"keys\":[{\"kty\":\"EC\",\"crv\":\"P-256\",\"x\":\"!\",\"y\":\"!\"}]}", "x" * 70000, "\x00\xff\xfe",
+              "v=0\r\n", "v=0\r\no=- 1 1 IN IP4 0.0.0.0\r\ns=-\r\nt=0 0\r\nm=video 9 UDP/TLS/RTP/SAVPF 96\r\n", "a=ice-ufrag:x\r\n", "{\"password\":{\"type\":\"pbkdf2\",\"hash\":\"md5\"}}",
+              "{\"max-clients\":-1,\"max-history-age\":-5}", "{\"codecs\":[\"nope\"]}", "{\"displayName\":7}", "{\"not-before\":\"x\"}"]
+    ctypes = ["", "application/json", "application/jwk-set+json", "text/plain", "application/sdp", "application/trickle-ice-sdpfrag", "application/x-www-form-urlencoded", "garbage/;;;=", "application/json; charset=\"" ]
+    hdrs = [{}, {"If-Match": "*"}, {"If-Match": "\"a\", W/\"b\","}, {"If-None-Match": "W/"}, {"If-Match": ","}, {"If-None-Match": "\"\\\"\""}, {"Authorization": "Bearer"}, {"Authorization": "Bearer " + "x" * 5000},
+            {"Authorization": "Basic !!!"}, {"Authorization": "Digest x"}, {"Origin": "http://evil.example", "Access-Control-Request-Method": "PUT"}, {"Range": "bytes=5-1"}, {"If-Modified-Since": "x"},
+            {"Upgrade": "websocket", "Connection": "Upgrade"}, {"Upgrade": "websocket", "Connection": "Upgrade", "Sec-WebSocket-Key": "x", "Sec-WebSocket-Version": "13"}, {"Content-Encoding": "gzip"}]
+    st, meta = [], {}
+    for i in range(n):
+        name = "z%d" % i
+        m = r.choice(["GET", "HEAD", "POST", "PUT", "DELETE", "PATCH", "OPTIONS", "TRACE", "PROPFIND", "CONNECT"])
+        h = dict(r.choice(hdrs))
+        ct = r.choice(ctypes)
+        if ct:
+            h["Content-Type"] = ct
+        cr = r.choice(["none", "root", "root", "user", "tokin"])
+        ah, u, p = CRED[cr]
+        if "Authorization" not in h:
+            h.update(ah)
+        else:
+            u = p = ""
+        st.append(["http", name, m, r.choice(roots) + r.choice(tails), h, r.choice(bodies) if m not in ("GET", "HEAD") or r.random() < 0.2 else "", u, p])
+        meta[name] = dict(X0, **{"class": "fuzz"})
+    return [{"name": "http-fuzz", "fixture": fixture(), "steps": st}], meta
+
+
 def run_table(rep, w, tier, pid, replay=None):
     thorough = tier == "thorough"
     if replay:
@@ -199,7 +257,10 @@ def run_table(rep, w, tier, pid, replay=None):
         if not rows:
             raise C.Inconclusive("no API rows enumerated")
         behs, meta = table_behaviours(rows)
-        for (bs, mt) in (sequences(C.seed(), 40 if thorough else 8), crashes(), whips()):
+        more = [sequences(C.seed(), 40 if thorough else 8), crashes(), whips()]
+        if pid == "C12":
+            more.append(fuzz(C.seed(), 1500 if thorough else 300))
+        for (bs, mt) in more:
             behs += bs
             meta.update(mt)
     script = os.path.join(w, "http_script.json")
@@ -220,6 +281,9 @@ def run_table(rep, w, tier, pid, replay=None):
         if e["ev"] == "dead":
             x["expected"] = 1 if (0 <= bi < len(behs) and behs[bi].get("expect_dead")) else 0
         e["x"] = x
+        if e["ev"] == "httprace":
+            e.setdefault("statuses", [])
+            e.setdefault("oks", 0)
         for k in ("method", "path", "etag", "digest"):
             e.setdefault(k, "")
         e.setdefault("parts", [])
@@ -235,6 +299,11 @@ def run_table(rep, w, tier, pid, replay=None):
     rep.traces(v.nbeh)
     rep.cov["http_requests"] = len(reqs)
     rep.cov["http_status_histogram"] = {str(k): sum(1 for e in reqs if e["status"] == k) for k in sorted({e["status"] for e in reqs})}
+    races = [e for e in events if e["ev"] == "httprace"]
+    rep.cov["racing_writer_groups"] = {"total": len(races), "by_number_of_successes": {str(k): sum(1 for e in races if e["oks"] == k) for k in sorted({e["oks"] for e in races})}}
+    cond = [e for e in reqs if e["x"].get("hdr")]
+    rep.cov["conditional_requests"] = {"%s/%s/%s" % (h, f, st): sum(1 for e in cond if (e["x"]["hdr"], e["x"]["form"], e["status"]) == (h, f, st))
+                                       for (h, f, st) in sorted({(e["x"]["hdr"], e["x"]["form"], e["status"]) for e in cond})}
     rep.cov["crash_points_exercised"] = sorted({b.get("crash") for b in behs if b.get("crash")})
     rep.cases(len(events), len({json.dumps([e.get("method"), e.get("path"), e["x"].get("class"), e.get("status"), e["x"].get("form"), e["x"].get("hdr")]) for e in reqs}))
     rep.cov["rule"] = (rep.cov.get("rule", "") + " | http: one evaluation = one real HTTP request to the real server; distinct = distinct (method, path, row class, status, header form) tuples").strip(" |")
@@ -245,9 +314,11 @@ def run_table(rep, w, tier, pid, replay=None):
             rep.sample({k: cw[0][k] for k in ("method", "path", "status", "etag", "x")})
     for (line, nb, clause) in v.bads:
         e = events[line - 1]
-        if clause.startswith(PREFIX[pid]):
+        if clause.startswith("N18_"):
+            rep.cov["current_tag_refused_(not_a_violation)"] = rep.cov.get("current_tag_refused_(not_a_violation)", 0) + 1
+        elif clause.startswith(PREFIX[pid]):
             b = behs[nb - 1] if 0 < nb <= len(behs) else None
-            rep.violation("%s at line %d (behaviour '%s'): %s" % (clause, line, b["name"] if b else "", json.dumps({k: e.get(k) for k in ("ev", "name", "method", "path", "status", "leaks", "x", "how", "body")})[:600]),
+            rep.violation("%s at line %d (behaviour '%s'): %s" % (clause, line, b["name"] if b else "", json.dumps({k: e.get(k) for k in ("ev", "name", "method", "path", "status", "statuses", "leaks", "x", "how", "body") if e.get(k) not in (None, "", [])})[:600]),
                           {"http_behaviours": [b] if b else [], "meta": {k: meta[k] for k in meta if b and any(len(s) > 1 and s[1] == k for s in b["steps"])}})
         else:
             rep.notes.append("clause %s of another property failed at line %d" % (clause, line))
